@@ -143,16 +143,24 @@ static int32 hmm_vit_eval_5st_lr_mpx(hmm_t *hmm) __CPROVER_requires(0) __CPROVER
 static int32 hmm_vit_eval_anytopo(hmm_t *hmm) __CPROVER_requires(0) __CPROVER_assigns() __CPROVER_ensures(1);
 /* the dispatcher, for the 3-state topologies of the shipped models: it reaches exactly one of the two steps proved above
  * (never the 5-state or any-topology code) and hands their result through.  Callees replaced by their contracts. */
+/* (two case groups: the fresh-object predicates of the two callees cannot sit under one conditional) */
 int32 hmm_vit_eval(hmm_t *hmm)
-__CPROVER_requires(hmm->mpx ? (HMM3M_FRESH(hmm)) : (HMM3_FRESH(hmm)))
-__CPROVER_requires(hmm->n_emit_state == 3)
+#ifdef VERIF_HVE_MPX
+__CPROVER_requires(HMM3M_FRESH(hmm))
+__CPROVER_requires(hmm->mpx != 0 && hmm->n_emit_state == 3)
 __CPROVER_requires(hmm->score[0] >= HW && hmm->score[0] <= 0 && H_SCORE_OK(hmm->score[1]) && H_SCORE_OK(hmm->score[2]))
-__CPROVER_requires(IMP(!hmm->mpx, (hmm->score[2] == HW || hmm->score[1] != HW) && (hmm->score[1] != HW || hmm->out_score == HW)
-                                  && verif_hs[0] == hmm->score[0] - H3_SEN(0) && verif_hs[1] == hmm->score[1] - H3_SEN(1) && verif_hs[2] == hmm->score[2] - H3_SEN(2)))
-__CPROVER_requires(IMP(hmm->mpx, (hmm->senid[1] == BAD_SSID) == (hmm->score[1] == HW) && (hmm->senid[2] == BAD_SSID) == (hmm->score[2] == HW)
-                                 && verif_hact[1] == (hmm->senid[1] != BAD_SSID) && verif_hact[2] == (hmm->senid[2] != BAD_SSID)
-                                 && verif_hs[0] == hmm->score[0] - H3M_SEN(0)
-                                 && IMP(verif_hact[1], verif_hs[1] == hmm->score[1] - H3M_SEN(1)) && IMP(verif_hact[2], verif_hs[2] == hmm->score[2] - H3M_SEN(2))))
+__CPROVER_requires((hmm->senid[1] == BAD_SSID) == (hmm->score[1] == HW) && (hmm->senid[2] == BAD_SSID) == (hmm->score[2] == HW))
+__CPROVER_requires(verif_hact[1] == (hmm->senid[1] != BAD_SSID) && verif_hact[2] == (hmm->senid[2] != BAD_SSID))
+__CPROVER_requires(verif_hs[0] == hmm->score[0] - H3M_SEN(0))
+__CPROVER_requires(IMP(verif_hact[1], verif_hs[1] == hmm->score[1] - H3M_SEN(1)) && IMP(verif_hact[2], verif_hs[2] == hmm->score[2] - H3M_SEN(2)))
+#else
+__CPROVER_requires(HMM3_FRESH(hmm))
+__CPROVER_requires(hmm->mpx == 0 && hmm->n_emit_state == 3)
+__CPROVER_requires(hmm->score[0] >= HW && hmm->score[0] <= 0 && H_SCORE_OK(hmm->score[1]) && H_SCORE_OK(hmm->score[2]))
+__CPROVER_requires(hmm->score[2] == HW || hmm->score[1] != HW)
+__CPROVER_requires(hmm->score[1] != HW || hmm->out_score == HW)
+__CPROVER_requires(verif_hs[0] == hmm->score[0] - H3_SEN(0) && verif_hs[1] == hmm->score[1] - H3_SEN(1) && verif_hs[2] == hmm->score[2] - H3_SEN(2))
+#endif
 __CPROVER_assigns(hmm->score[0], hmm->score[1], hmm->score[2], hmm->history[1], hmm->history[2], hmm->out_score, hmm->out_history,
                   hmm->bestscore, hmm->senid[1], hmm->senid[2])
 __CPROVER_ensures(__CPROVER_return_value == hmm->bestscore)
